@@ -157,7 +157,7 @@ package memberlist
 //@   let t := old(has(m.nodeTimers, s.Node))
 //@   ensures S-frame [C01,C07]: forall x string :: x != n ==> sameRec(m, x)
 //@   ensures S-list [C01,C07]: sameList(m)
-//@   ensures S-ignore [C01]: (!h || s.Incarnation < old(r.Incarnation) || (!t && old(r.State) != StateAlive)) ==> sameView(m) && quiet()
+//@   ensures S-ignore [C01,C06,C08]: (!h || s.Incarnation < old(r.Incarnation) || (!t && old(r.State) != StateAlive)) ==> sameView(m) && quiet()
 //@   ensures S-confirm [C01,C06]: h && s.Incarnation >= old(r.Incarnation) && t ==> sameRec(m, n) && sameTimers(m) && $ev == old($ev) && $cf == old($cf)
 //@                  && ($bq == old($bq) || $bq == snoc(old($bq), Bq(n, suspectMsg, s.Incarnation, n, s.From, 0)))
 //@   ensures S-self [C02]: h && s.Incarnation >= old(r.Incarnation) && !t && old(r.State) == StateAlive && n == m.config.Name && s.Incarnation < 4294967295 && !$wrapped ==>
